@@ -133,7 +133,7 @@ where
         tier.pick(6_000, 150_000)
     }
     fn rule(&self) -> String {
-        "two polynomials of 1..130 coefficients (zero leading/trailing runs, zero polynomial, sparse forced with probability 4/8), scalar, point; add/sub/mul/mul_by_scalar/eval/eval_many/degree_of/remove_leading_zeros/div vs schoolbook; every 16th case also evaluates a polynomial of 255..4097 coefficients (2^k-1, 2^k, 2^k+1 and odd lengths above 2048); non-trivial = both polynomials non-zero and at least one has a zero leading or trailing coefficient or degree >= 8".into()
+        "two polynomials of 1..130 coefficients (zero leading/trailing runs, zero polynomial, sparse forced with probability 4/8), scalar, point; add/sub/mul/mul_by_scalar/eval/eval_many/degree_of/remove_leading_zeros/div vs schoolbook; the empty coefficient vector (the zero polynomial as remove_leading_zeros returns it) as one operand of add/sub/mul/mul_by_scalar/eval/degree_of; every 16th case also evaluates a polynomial of 255..4097 coefficients (2^k-1, 2^k, 2^k+1 and odd lengths above 2048); non-trivial = both polynomials non-zero and at least one has a zero leading or trailing coefficient or degree >= 8".into()
     }
     fn required_labels(&self, _t: Tier) -> Vec<String> {
         vec!["div:exact-check".into(), "div:doc-panic".into(), "a:leading-zero".into(), "a:zero-poly".into()]
@@ -183,6 +183,26 @@ where
         let many = polynom::eval_many(&a, &pts);
         for (i, p) in pts.iter().enumerate() {
             ensure!(to_el(&many[i]) == rp::eval(&f, &ma, &to_el(p)), "eval_many/value", "eval_many[{i}]");
+        }
+        // the empty coefficient vector is the zero polynomial as the library itself returns it (remove_leading_zeros,
+        // interpolate(.., true)): as an operand it must behave as zero (both operands empty is left out: the
+        // documented result length a.len + b.len - 1 is not defined there)
+        {
+            let e: Vec<E> = vec![];
+            let zero: Vec<El> = vec![];
+            obs.label("empty-operand");
+            cmp_poly(&f, &to_els(&polynom::add(&a, &e)), &ma, "empty-operand/add", "a + [] ")?;
+            cmp_poly(&f, &to_els(&polynom::add(&e, &a)), &ma, "empty-operand/add", "[] + a")?;
+            cmp_poly(&f, &to_els(&polynom::sub(&a, &e)), &ma, "empty-operand/sub", "a - []")?;
+            cmp_poly(&f, &to_els(&polynom::sub(&e, &a)), &rp::sub(&f, &zero, &ma), "empty-operand/sub", "[] - a")?;
+            for (what, r) in [("a * []", catch(|| polynom::mul(&a, &e))), ("[] * a", catch(|| polynom::mul(&e, &a)))] {
+                let r = r.map_err(|p| vf_core::Fail::new(format!("empty-operand/mul/{}", p.key()), format!("{what} (a of {} coefficients) panicked: {}", a.len(), p.msg)))?;
+                ensure!(r.len() == a.len() - 1, "empty-operand/mul/len", "{what}: documented length a.len + b.len - 1");
+                ensure!(r.iter().all(|c| *c == E::ZERO), "empty-operand/mul/value", "{what} is not the zero polynomial");
+            }
+            ensure!(polynom::mul_by_scalar(&e, k).is_empty(), "empty-operand/mul_by_scalar", "[] * k");
+            ensure!(polynom::eval(&e, x) == E::ZERO && polynom::eval_many(&e, &[x, k]) == vec![E::ZERO, E::ZERO], "empty-operand/eval", "the empty polynomial does not evaluate to zero");
+            ensure!(polynom::degree_of(&e) == 0 && polynom::remove_leading_zeros(&e).is_empty(), "empty-operand/degree", "degree_of / remove_leading_zeros of the empty polynomial");
         }
         // long polynomials (every 16th case): a repeated up to a length around the sizes at which an
         // implementation may switch strategy; eval / eval_many / degree_of vs Horner over integers
